@@ -326,6 +326,13 @@ theorem exec_inv {nt : Nat} (s : St) (op : Op) (h : MInv nt s) : MInv nt (exec s
     · split
       · exact h.throw
       · exact h.done _ _ (h.cur.congr (sameCore_unblockAccount _ _))
+  | designate nodes caller =>
+    simp only [exec]
+    split
+    · exact h
+    · cases hs : designateNotary s.env s.cur nodes (witCommittee s.env s.cur caller s.env.desigC) with
+      | none => exact h.throw
+      | some l => exact h.done l .null (h.cur.congr (sameCore_designateNotary _ _ _ _ _ hs).1)
 
 /-- block-level operations are never skipped and have no calling contract. -/
 theorem step_eq_exec (s : St) (op : Op) (h : op.isCall = false) : step s op = exec s op := by
